@@ -466,8 +466,11 @@ class RequestHandler(BaseProtocol, Generic[_Request]):
         pass
 
     def data_received(self, data: bytes) -> None:
-        if self._force_close or self._close:
+        closing = self._force_close or self._close
+        if closing and not self._request_in_progress:
             return
+        # (Closing, but a request is being handled: it still gets the rest of
+        # its body; requests that follow it are not taken on any more.)
         # parse http messages
         messages: Sequence[_MsgType]
         if self._payload_parser is None and not self._upgraded:
@@ -480,6 +483,9 @@ class RequestHandler(BaseProtocol, Generic[_Request]):
                 ]
                 upgraded = False
                 tail = b""
+
+            if closing:
+                messages = []
 
             for msg, payload in messages:
                 self._request_count += 1
